@@ -109,6 +109,29 @@ fn history(cfg: &Cfg, rep: &mut Report, h: u64, steps: usize) {
             }
         }
     }
+    // ids over other targets, functions and argument shapes: equal to the independent hash, all distinct
+    {
+        let target2 = e.register(CountTarget, ());
+        let shapes: Vec<SVec<Val>> = vec![args!(e), args!(e, 0u32), args!(e, 0u32, 0u32), args!(e, args!(e, 0u32)), args!(e, 0u64), args!(e, Symbol::new(e, "bump"))];
+        let mut seen: Vec<([u8; 32], String)> = vec![];
+        for (ti2, tg) in [&target, &target2].iter().enumerate() {
+            for func in ["bump", "fail", "bum"] {
+                for (si, a) in shapes.iter().enumerate() {
+                    for pred in [zero, s1] {
+                        let own = own_hash(e, tg, func, a, &pred, &s1);
+                        let got: BytesN<32> = invoke(e, &c, "hash", args!(e, (*tg).clone(), Symbol::new(e, func), a.clone(), BytesN::from_array(e, &pred), BytesN::from_array(e, &s1))).must("hash_operation");
+                        let label = format!("target{ti2}.{func}(shape {si}) pred={}", if pred == zero { "none" } else { "some" });
+                        rep.check("id", got.to_array() == own, "C08/id/hash_operation/differs-from-keccak-of-xdr", || format!("{label}: contract id {:?}, own {:?}", got.to_array(), own));
+                        if let Some((_, other)) = seen.iter().find(|(h, _)| *h == got.to_array()) {
+                            rep.check("id", false, "C08/id/hash_operation/collision", || format!("{label} and {other} share an id"));
+                        }
+                        seen.push((got.to_array(), label));
+                    }
+                }
+            }
+        }
+        rep.evaluations += seen.len() as u64;
+    }
     let mut st = vec![St::Unset; nt];
     let mut executed = vec![0u32; 8]; // per counter key k
     for step in 0..steps {
@@ -226,6 +249,17 @@ fn history(cfg: &Cfg, rep: &mut Report, h: u64, steps: usize) {
             let s: u32 = invoke(e, &c, "state", args!(e, BytesN::from_array(e, &tp.id))).must("state");
             let want = state_code(st[i], cur);
             rep.check("ref", s == want, &format!("C08/ref/{name}/state"), || format!("after {name} T{ti}: template {i} reports state {s}, model {:?} at ledger {cur} (code {want})", st[i]));
+            // the stored ready ledger (0 unset, 1 done, else the saturated sum) and the four predicates
+            let lo: u32 = invoke(e, &c, "ledger_of", args!(e, BytesN::from_array(e, &tp.id))).must("get_operation_ledger");
+            let want_l = match st[i] {
+                St::Unset => 0,
+                St::Done => 1,
+                St::Pending(r) => r,
+            };
+            rep.check("ref", lo == want_l, &format!("C08/ref/{name}/operation-ledger"), || format!("after {name} T{ti}: get_operation_ledger(template {i}) = {lo}, model {:?} (expected {want_l})", st[i]));
+            let pr: (bool, bool, bool, bool) = invoke(e, &c, "predicates", args!(e, BytesN::from_array(e, &tp.id))).must("operation_exists/is_operation_*");
+            let wp = (want != 0, want == 1 || want == 2, want == 2, want == 3);
+            rep.check("ref", pr == wp, &format!("C08/ref/{name}/predicates"), || format!("after {name} T{ti}: (exists, pending, ready, done) of template {i} = {pr:?}, model state {want} implies {wp:?}"));
         }
         for kk in [0u32, 1, 2, 3, 5, 6] {
             let n: u32 = invoke(e, &target, "count", args!(e, kk)).expect("count");
